@@ -1,1 +1,479 @@
-//! reference model `seg_match` — not built yet.
+//! Reference for C10 / C09: the resource-pattern language of `actix-router`, matched by a small
+//! backtracking interpreter that does not use the `regex` crate.
+//!
+//! Pattern language (written from the `ResourceDef` documentation):
+//!
+//! * static text matches itself;
+//! * `{name}` matches a non-empty run of characters other than `/` (`[^/]+`);
+//! * `{name:<class>}` matches the language of `<class>`, taken from the fixed menu [`CLASSES`];
+//! * `{name}*` at the very end (tail) matches the whole rest of the path, `/` and newlines included;
+//! * a *full* pattern must match the whole path, a *prefix* pattern must end at the end of the
+//!   path or just before a `/` (segment boundary); a tail pattern ends at the end of the path;
+//! * a pattern *list* behaves as its first member (in list order) that matches.
+//!
+//! Where the language is ambiguous (two adjacent dynamic segments, `{a}-{b}` on `x-y-z`) the
+//! documented definition is "the anchored regular expression built from the pieces", i.e.
+//! leftmost-first (Perl) semantics: every piece is tried in priority order — greedy repetitions
+//! longest first, lazy ones shortest first, alternations left to right — and the first complete
+//! match wins.  The interpreter below enumerates matches in exactly that order, so its first
+//! result is the expected one and the number of results tells whether the decomposition is unique.
+//!
+//! Characters, not bytes: repetitions step over whole UTF-8 scalar values; all offsets are byte
+//! offsets.  `\d` is modelled as ASCII digits — workloads must not contain non-ASCII digits.
+
+use std::fmt::Write as _;
+
+/// How a custom class matches.
+#[derive(Clone, Copy, Debug)]
+pub enum Spec {
+    /// between `min` and `max` characters satisfying the predicate, longest first (`greedy`) or
+    /// shortest first
+    Rep { pred: fn(char) -> bool, min: usize, max: usize, greedy: bool },
+    /// literal alternatives, tried left to right
+    Alt(&'static [&'static str]),
+}
+
+#[derive(Clone, Copy, Debug)]
+pub struct Class {
+    /// the regex source written after the colon in `{name:...}`; "" is the default segment class
+    pub src: &'static str,
+    pub spec: Spec,
+    /// short tag for signatures
+    pub tag: &'static str,
+}
+
+impl PartialEq for Class {
+    fn eq(&self, o: &Class) -> bool {
+        self.tag == o.tag && self.src == o.src
+    }
+}
+impl Eq for Class {}
+
+fn not_slash(c: char) -> bool {
+    c != '/'
+}
+fn digit(c: char) -> bool {
+    c.is_ascii_digit()
+}
+fn lower(c: char) -> bool {
+    c.is_ascii_lowercase()
+}
+fn any(_: char) -> bool {
+    true
+}
+fn ab1(c: char) -> bool {
+    c == 'a' || c == 'b' || c == '1'
+}
+fn word_dash(c: char) -> bool {
+    c == 'a' || c == 'b' || c == '-'
+}
+
+const INF: usize = usize::MAX;
+/// per-element memo of the last scanned run (see `walk`)
+const RUN_CACHE: usize = 24;
+const NO_RUN: (usize, usize) = (usize::MAX, 0);
+
+/// default dynamic segment: `[^/]+`
+pub const SEG: Class = Class { src: "", spec: Spec::Rep { pred: not_slash, min: 1, max: INF, greedy: true }, tag: "seg" };
+/// tail: `.*` with "dot matches newline"
+pub const TAIL: Class = Class { src: "", spec: Spec::Rep { pred: any, min: 0, max: INF, greedy: true }, tag: "tail" };
+
+/// The fixed menu of custom classes.  `src` is what goes into the pattern string.
+pub const CLASSES: &[Class] = &[
+    Class { src: r"\d+", spec: Spec::Rep { pred: digit, min: 1, max: INF, greedy: true }, tag: "d+" },
+    Class { src: r"[a-z]+", spec: Spec::Rep { pred: lower, min: 1, max: INF, greedy: true }, tag: "az+" },
+    Class { src: r"[^/]*", spec: Spec::Rep { pred: not_slash, min: 0, max: INF, greedy: true }, tag: "ns*" },
+    Class { src: r".*", spec: Spec::Rep { pred: any, min: 0, max: INF, greedy: true }, tag: ".*" },
+    Class { src: r".+", spec: Spec::Rep { pred: any, min: 1, max: INF, greedy: true }, tag: ".+" },
+    Class { src: r"[ab1]{2}", spec: Spec::Rep { pred: ab1, min: 2, max: 2, greedy: true }, tag: "ab1{2}" },
+    Class { src: r"[^/]+?", spec: Spec::Rep { pred: not_slash, min: 1, max: INF, greedy: false }, tag: "ns+?" },
+    Class { src: r"a|ab", spec: Spec::Alt(&["a", "ab"]), tag: "a|ab" },
+    Class { src: r"[ab-]{1,3}", spec: Spec::Rep { pred: word_dash, min: 1, max: 3, greedy: true }, tag: "ab-{1,3}" },
+    Class { src: r"\d*", spec: Spec::Rep { pred: digit, min: 0, max: INF, greedy: true }, tag: "d*" },
+    Class { src: r"ab|a|", spec: Spec::Alt(&["ab", "a", ""]), tag: "ab|a|" },
+];
+
+#[derive(Clone, Debug, PartialEq, Eq)]
+pub enum Elem {
+    Lit(String),
+    Var { name: String, class: Class },
+    /// `{name}*`, only as the last element
+    Tail { name: String },
+}
+
+#[derive(Clone, Debug, PartialEq, Eq)]
+pub struct Pattern {
+    pub elems: Vec<Elem>,
+}
+
+/// one capture: (name, start, end) as byte offsets into the matched string
+pub type Cap = (String, usize, usize);
+
+#[derive(Clone, Debug, PartialEq, Eq)]
+pub struct Match {
+    /// byte length of the matched part (for a prefix: up to, not including, the boundary `/`)
+    pub len: usize,
+    pub caps: Vec<Cap>,
+}
+
+impl Pattern {
+    pub fn lit(s: &str) -> Pattern {
+        Pattern { elems: if s.is_empty() { vec![] } else { vec![Elem::Lit(s.to_string())] } }
+    }
+
+    /// The pattern string handed to `ResourceDef`.
+    pub fn source(&self) -> String {
+        let mut s = String::new();
+        for e in &self.elems {
+            match e {
+                Elem::Lit(l) => s.push_str(l),
+                Elem::Var { name, class } => {
+                    if class.src.is_empty() {
+                        let _ = write!(s, "{{{name}}}");
+                    } else {
+                        let _ = write!(s, "{{{name}:{}}}", class.src);
+                    }
+                }
+                Elem::Tail { name } => {
+                    let _ = write!(s, "{{{name}}}*");
+                }
+            }
+        }
+        s
+    }
+
+    /// Parse a pattern string of the restricted grammar back into elements (used by replays and by
+    /// the routing model, where tables are written with pattern strings).  `None` when the string
+    /// uses something outside the grammar.
+    pub fn parse(src: &str) -> Option<Pattern> {
+        let mut elems = vec![];
+        let mut rest = src;
+        while let Some(i) = rest.find('{') {
+            if i > 0 {
+                elems.push(Elem::Lit(rest[..i].to_string()));
+            }
+            // find the matching close brace (classes may contain `{2}`)
+            let mut depth = 0usize;
+            let mut close = None;
+            for (j, c) in rest[i..].char_indices() {
+                match c {
+                    '{' => depth += 1,
+                    '}' => {
+                        depth -= 1;
+                        if depth == 0 {
+                            close = Some(i + j);
+                            break;
+                        }
+                    }
+                    _ => {}
+                }
+            }
+            let close = close?;
+            let inner = &rest[i + 1..close];
+            let after = &rest[close + 1..];
+            match inner.split_once(':') {
+                Some((name, cls)) => {
+                    let class = *CLASSES.iter().find(|c| c.src == cls)?;
+                    elems.push(Elem::Var { name: name.to_string(), class });
+                    rest = after;
+                }
+                None => {
+                    if after == "*" {
+                        elems.push(Elem::Tail { name: inner.to_string() });
+                        rest = "";
+                    } else {
+                        elems.push(Elem::Var { name: inner.to_string(), class: SEG });
+                        rest = after;
+                    }
+                }
+            }
+        }
+        if !rest.is_empty() {
+            if rest.ends_with('*') {
+                return None; // unnamed tail: outside the grammar
+            }
+            elems.push(Elem::Lit(rest.to_string()));
+        }
+        Some(Pattern { elems })
+    }
+
+    pub fn has_tail(&self) -> bool {
+        matches!(self.elems.last(), Some(Elem::Tail { .. }))
+    }
+    pub fn is_static(&self) -> bool {
+        self.elems.iter().all(|e| matches!(e, Elem::Lit(_)))
+    }
+    pub fn names(&self) -> Vec<&str> {
+        self.elems
+            .iter()
+            .filter_map(|e| match e {
+                Elem::Var { name, .. } | Elem::Tail { name } => Some(name.as_str()),
+                Elem::Lit(_) => None,
+            })
+            .collect()
+    }
+    /// abstract shape for signatures: element kinds without names and literal text
+    pub fn shape(&self) -> String {
+        let mut s = String::new();
+        for e in &self.elems {
+            match e {
+                Elem::Lit(l) => {
+                    // keep only the slash structure of a literal
+                    let mut prev_other = false;
+                    for c in l.chars() {
+                        if c == '/' {
+                            s.push('/');
+                            prev_other = false;
+                        } else if !prev_other {
+                            s.push('L');
+                            prev_other = true;
+                        }
+                    }
+                }
+                Elem::Var { class, .. } => {
+                    let _ = write!(s, "<{}>", class.tag);
+                }
+                Elem::Tail { .. } => s.push_str("<tail>"),
+            }
+        }
+        s
+    }
+
+    /// First match in priority order, or `None`.
+    pub fn find(&self, path: &str, prefix: bool) -> Option<Match> {
+        let mut out = None;
+        let mut caps = Vec::with_capacity(4);
+        let mut cache = [NO_RUN; RUN_CACHE];
+        self.walk(path, prefix, 0, 0, &mut caps, &mut cache, &mut |len, caps| {
+            out = Some(Match { len, caps: self.named(caps) });
+            true
+        });
+        out
+    }
+
+    /// Number of distinct complete decompositions, counted up to `cap`.
+    pub fn count(&self, path: &str, prefix: bool, cap: usize) -> usize {
+        let mut n = 0;
+        let mut caps = Vec::with_capacity(4);
+        let mut cache = [NO_RUN; RUN_CACHE];
+        let mut seen: Vec<(usize, Vec<(usize, usize)>)> = vec![];
+        self.walk(path, prefix, 0, 0, &mut caps, &mut cache, &mut |len, caps| {
+            let key = (len, caps.to_vec());
+            if !seen.contains(&key) {
+                seen.push(key);
+                n += 1;
+            }
+            n >= cap
+        });
+        n
+    }
+
+    fn named(&self, spans: &[(usize, usize)]) -> Vec<Cap> {
+        self.names().into_iter().zip(spans.iter()).map(|(n, &(a, b))| (n.to_string(), a, b)).collect()
+    }
+
+    /// Depth-first enumeration of complete matches in priority order.  `done` returns true to stop.
+    /// Returns true when stopped.
+    fn walk(
+        &self,
+        path: &str,
+        prefix: bool,
+        ei: usize,
+        pos: usize,
+        caps: &mut Vec<(usize, usize)>,
+        cache: &mut [(usize, usize); RUN_CACHE],
+        done: &mut dyn FnMut(usize, &[(usize, usize)]) -> bool,
+    ) -> bool {
+        if ei == self.elems.len() {
+            let ok = if self.has_tail() {
+                // the tail has consumed everything
+                true
+            } else if prefix {
+                pos == path.len() || path.as_bytes()[pos] == b'/'
+            } else {
+                pos == path.len()
+            };
+            return ok && done(pos, caps);
+        }
+        match &self.elems[ei] {
+            Elem::Lit(l) => {
+                if path[pos..].starts_with(l.as_str()) {
+                    return self.walk(path, prefix, ei + 1, pos + l.len(), caps, cache, done);
+                }
+                false
+            }
+            Elem::Tail { .. } => {
+                caps.push((pos, path.len()));
+                let r = self.walk(path, prefix, ei + 1, path.len(), caps, cache, done);
+                caps.pop();
+                r
+            }
+            Elem::Var { class, .. } => match class.spec {
+                Spec::Alt(alts) => {
+                    for a in alts {
+                        if path[pos..].starts_with(a) {
+                            caps.push((pos, pos + a.len()));
+                            let r = self.walk(path, prefix, ei + 1, pos + a.len(), caps, cache, done);
+                            caps.pop();
+                            if r {
+                                return true;
+                            }
+                        }
+                    }
+                    false
+                }
+                Spec::Rep { pred, min, max, greedy } => {
+                    // `end`: end of the longest admissible run starting at `pos` (characters
+                    // satisfying the predicate, at most `max` of them).  For unbounded classes the
+                    // run [lo, hi) found by an earlier scan is remembered: any start inside it
+                    // ends at the same place.
+                    let end = if max == INF && ei < RUN_CACHE && cache[ei].0 <= pos && pos <= cache[ei].1 {
+                        cache[ei].1
+                    } else {
+                        let joinable = max == INF && ei < RUN_CACHE && cache[ei].0 != usize::MAX;
+                        let mut end = pos;
+                        let mut n = 0usize;
+                        for c in path[pos..].chars() {
+                            if joinable && end == cache[ei].0 {
+                                // ran into the remembered run: it continues to that run's end
+                                end = cache[ei].1;
+                                break;
+                            }
+                            if n >= max || !pred(c) {
+                                break;
+                            }
+                            end += c.len_utf8();
+                            n += 1;
+                        }
+                        if max == INF && ei < RUN_CACHE {
+                            cache[ei] = (pos, end);
+                        }
+                        end
+                    };
+                    // shortest admissible end: `min` characters
+                    let mut min_end = pos;
+                    for c in path[pos..end].chars().take(min) {
+                        min_end += c.len_utf8();
+                    }
+                    if path[pos..min_end].chars().count() < min {
+                        return false;
+                    }
+                    // Candidate ends are all character boundaries in [min_end, end], in priority
+                    // order.  Pruning that cannot lose a match: when what must follow starts with
+                    // a character the class does not contain, only the full run can be followed
+                    // by it (every shorter end is followed by a character of the class).
+                    let only_end = match self.elems.get(ei + 1) {
+                        Some(Elem::Lit(l)) => l.chars().next().map(|c| !pred(c)).unwrap_or(false),
+                        Some(_) => false,
+                        None => !prefix || !pred('/'),
+                    };
+                    if only_end {
+                        if end < min_end {
+                            return false;
+                        }
+                        caps.push((pos, end));
+                        let r = self.walk(path, prefix, ei + 1, end, caps, cache, done);
+                        caps.pop();
+                        return r;
+                    }
+                    if greedy {
+                        let mut e = end;
+                        loop {
+                            caps.push((pos, e));
+                            let r = self.walk(path, prefix, ei + 1, e, caps, cache, done);
+                            caps.pop();
+                            if r {
+                                return true;
+                            }
+                            if e == min_end {
+                                return false;
+                            }
+                            e -= 1;
+                            while !path.is_char_boundary(e) {
+                                e -= 1;
+                            }
+                        }
+                    } else {
+                        let mut e = min_end;
+                        loop {
+                            caps.push((pos, e));
+                            let r = self.walk(path, prefix, ei + 1, e, caps, cache, done);
+                            caps.pop();
+                            if r {
+                                return true;
+                            }
+                            if e == end {
+                                return false;
+                            }
+                            e += 1;
+                            while !path.is_char_boundary(e) {
+                                e += 1;
+                            }
+                        }
+                    }
+                }
+            },
+        }
+    }
+}
+
+/// A resource definition as the model sees it: one or more patterns, full or prefix.
+#[derive(Clone, Debug, PartialEq, Eq)]
+pub struct Def {
+    pub pats: Vec<Pattern>,
+    pub prefix: bool,
+}
+
+impl Def {
+    pub fn one(p: Pattern, prefix: bool) -> Def {
+        Def { pats: vec![p], prefix }
+    }
+    pub fn sources(&self) -> Vec<String> {
+        self.pats.iter().map(|p| p.source()).collect()
+    }
+    pub fn parse(srcs: &[String], prefix: bool) -> Option<Def> {
+        let pats: Option<Vec<Pattern>> = srcs.iter().map(|s| Pattern::parse(s)).collect();
+        Some(Def { pats: pats?, prefix })
+    }
+    /// (index of the first member that matches, its match)
+    pub fn find(&self, path: &str) -> Option<(usize, Match)> {
+        for (i, p) in self.pats.iter().enumerate() {
+            if let Some(m) = p.find(path, self.prefix) {
+                return Some((i, m));
+            }
+        }
+        None
+    }
+    pub fn shape(&self) -> String {
+        let mut s = String::from(if self.prefix { "P:" } else { "F:" });
+        for (i, p) in self.pats.iter().enumerate() {
+            if i > 0 {
+                s.push('|');
+            }
+            s.push_str(&p.shape());
+        }
+        s
+    }
+}
+
+#[cfg(test)]
+mod tests {
+    use super::*;
+
+    #[test]
+    fn basics() {
+        let p = Pattern::parse("/user/{id}/x").unwrap();
+        assert_eq!(p.find("/user/12/x", false).unwrap().caps, vec![("id".to_string(), 6, 8)]);
+        assert!(p.find("/user//x", false).is_none());
+        let p = Pattern::parse("/{a}-{b}").unwrap();
+        let m = p.find("/x-y-z", false).unwrap();
+        assert_eq!((m.caps[0].1, m.caps[0].2, m.caps[1].1, m.caps[1].2), (1, 4, 5, 6));
+        assert_eq!(p.count("/x-y-z", false, 5), 2);
+        let p = Pattern::parse("/app").unwrap();
+        assert_eq!(p.find("/app/x", true).unwrap().len, 4);
+        assert!(p.find("/apple", true).is_none());
+        assert_eq!(Pattern::parse("").unwrap().find("/x", true).unwrap().len, 0);
+        let p = Pattern::parse("/b/{t}*").unwrap();
+        assert_eq!(p.find("/b/x/y", false).unwrap().caps[0], ("t".to_string(), 3, 6));
+    }
+}
